@@ -63,7 +63,8 @@ def gen_op(rng, wv, allow=None, new_x_container=True):
         op = names[int(rng.integers(0, len(names)))]
         if op == "append_one_sample":
             if n >= 2 and nr >= 2 and n < MAX_LEN:
-                return {"op": op, "args": [], "kw": {"make_periodic": bool(rng.integers(0, 2))}}
+                flag = bool(rng.integers(0, 2))
+                return {"op": op, "args": [], "kw": {"make_periodic": [flag, np.bool_(flag), int(flag)][int(rng.integers(0, 3))]}}
         elif op == "interpolate":
             if 4 <= n <= SPLINE_MAX:
                 method = ["linear", "constant", "cubic", "spline"][int(rng.integers(0, 4))]
@@ -137,11 +138,15 @@ def gen_op(rng, wv, allow=None, new_x_container=True):
             return {"op": op, "args": [v], "kw": {}}
         elif op == "normalize_x":
             if n >= 2 and nr >= 2:
+                if rng.integers(0, 4) == 0:      # integer-typed bounds as in the documentation's normalize_x(0, 10)
+                    return {"op": op, "args": [0, int(rng.choice([7, 10 ** 6, 86_400_000]))], "kw": {}}
                 lo = float(rng.choice([0.0, -1.0, 5.0]))
                 return {"op": op, "args": [lo, lo + float(rng.choice([1.0, 10.0, 24.0]))], "kw": {}}
         elif op == "normalize_y":
             yo = wv.get_original()[1]
             if all(len(a) >= 2 and float(np.min(a)) != float(np.max(a)) for a in (y, ry, yo)):
+                if rng.integers(0, 4) == 0:      # integer-typed bounds (percent, per mille)
+                    return {"op": op, "args": [0, int(rng.choice([100, 1000, 10 ** 6]))], "kw": {}}
                 lo = float(rng.choice([0.0, -1.0, 5.0]))
                 return {"op": op, "args": [lo, lo + float(rng.choice([1.0, 10.0]))], "kw": {}}
         elif op == "truncate_by_value":
